@@ -108,6 +108,20 @@ fn scratch_root() -> String {
     std::env::var("TMPDIR").unwrap_or_else(|_| "/tmp".into())
 }
 
+/// Is the ptrace injector usable at all (strace present, ptrace and seccomp-bpf permitted)?
+fn strace_usable() -> bool {
+    std::path::Path::new("/usr/bin/strace").is_file()
+        && std::env::var("VERIF_NO_STRACE").is_err()
+        && std::process::Command::new("/usr/bin/strace")
+            .args(["--seccomp-bpf", "-f", "-qq", "-o", "/dev/null", "-e", "trace=write", "-e", "inject=write:error=ENOSPC:when=65535", "/bin/true"])
+            .stdin(std::process::Stdio::null())
+            .stdout(std::process::Stdio::null())
+            .stderr(std::process::Stdio::null())
+            .status()
+            .map(|s| s.success())
+            .unwrap_or(false)
+}
+
 /// Does this strace accept the injection specification (system call and errno names)?
 fn inject_spec_ok(call: &str, errno: &str) -> bool {
     std::process::Command::new("/usr/bin/strace")
@@ -276,6 +290,7 @@ fn setup(o: &Opts, scratch: &Path, only_complete_reference: bool) -> Result<Ctx,
         }
     }
     Ok(Ctx {
+        caps_strace: strace_usable(),
         alt,
         launcher,
         repo: o.repo.clone(),
@@ -499,6 +514,12 @@ fn absorb(st: &mut Stats, ctx: &Ctx, idx: usize, h: &History, trace: &Trace, vs:
             Step::Cli { query, env, .. } => {
                 st.cli_runs += 1;
                 if let Some(c) = &so.child {
+                    if let Some((kind, point, _)) = c.fault_fired() {
+                        // an interrupted system call injected into the program itself
+                        fired += 1;
+                        *st.faults_fired.entry(kind.clone()).or_default() += 1;
+                        st.fault_sites_fired.insert(format!("{kind}@{point}"));
+                    }
                     if !env.is_empty() {
                         depth += 1;
                         st.faults_configured += 1;
@@ -683,6 +704,10 @@ fn histories_for(ctx: &Ctx, o: &Opts, prop: &str, quick: bool) -> Vec<History> {
             for i in 0..n(32, 400) {
                 let seed = derive(o.seed, "C16", i as u64);
                 hs.push(gen::c16_random(ctx, &mut Rng::new(seed), seed, perms, i));
+            }
+            for i in 0..n(16, 300) {
+                let seed = derive(o.seed, "C16-threads", i as u64);
+                hs.push(gen::c16_threads(ctx, &mut Rng::new(seed), seed, if quick { 120 } else { 2000 }));
             }
         }
         "C18" => {
@@ -879,16 +904,7 @@ fn cmd_run(o: &Opts) -> i32 {
         // phase 4: crash points and I/O errors inside tantivy, injected from outside with ptrace
         let mut n_sys = 0;
         // the injector needs ptrace: probe it once, and do without this phase where it is not permitted
-        let strace_ok = std::path::Path::new("/usr/bin/strace").is_file()
-            && std::env::var("VERIF_NO_STRACE").is_err()
-            && std::process::Command::new("/usr/bin/strace")
-                .args(["--seccomp-bpf", "-f", "-qq", "-o", "/dev/null", "-e", "trace=write", "-e", "inject=write:error=ENOSPC:when=65535", "/bin/true"])
-                .stdin(std::process::Stdio::null())
-                .stdout(std::process::Stdio::null())
-                .stderr(std::process::Stdio::null())
-                .status()
-                .map(|s| s.success())
-                .unwrap_or(false);
+        let strace_ok = ctx.caps_strace;
         if strace_ok {
             let mut sys = Vec::new();
             let sstates = gen::syscall_states(&ctx);
